@@ -158,6 +158,17 @@ class Model:
         if v == "REST":
             self.rest_maybe = None
             if arg.isascii() and arg.isdigit():
+                if len(arg) > 18:
+                    # an offset beyond any file (and, past 4300 digits, beyond what int() converts): accepted as a huge
+                    # offset or refused as malformed - never a dropped session
+                    e = Expect(classes="35", note="astronomic offset")
+                    model = self
+                    self.rest = 0
+
+                    def took_huge():
+                        model.rest = 2 ** 62
+                    e.branches = {"3": took_huge}
+                    return e
                 self.rest = int(arg)
                 return Expect(["350"])
             self.rest = 0
